@@ -432,6 +432,43 @@ fn run_comp_case(comp: &Comp, case: &CompCase, seam_ops: &mut u64) -> Option<Vio
         Err(c) => return mk("panic", c.site, c.message, "ByteSink write panicked".into()),
     };
     let want = BitModel::from_bytes(&bytes, nbits);
+    if case.prefix_bits > 0 {
+        // "the same bit sequence when any component is serialised": started at an unaligned cursor, the sink
+        // must still receive the component's own bits (those it writes to an empty sink) as one contiguous run,
+        // after the prefix and at most seven zero bits of alignment (how many is the component's business)
+        let clean = std::thread::scope(|sc| {
+            sc.spawn(|| {
+                pan::catch(|| {
+                    let mut s = ByteSink::new();
+                    comp.write(&mut s).map(|()| (s.len(), s.into_inner())).map_err(|e| format!("{e}"))
+                })
+            })
+            .join()
+            .expect("HARNESS: reference thread")
+        });
+        if let Ok(Ok((cn, cb))) = clean {
+            let clean = BitModel::from_bytes(&cb, cn);
+            let rest = &want.bits[case.prefix_bits.min(want.bits.len())..];
+            let ok = rest.len() >= clean.bits.len() && {
+                let z = rest.len() - clean.bits.len();
+                z < 8 && rest[..z].iter().all(|b| !*b) && rest[z..] == clean.bits[..]
+            };
+            if !ok {
+                return mk(
+                    "component_bits_not_contiguous_after_unaligned_start",
+                    String::new(),
+                    String::new(),
+                    format!(
+                        "{} written to a ByteSink after {} prefix bit(s): {} bits follow the prefix, which are not 0..7 zero bits and then the {} bits the component writes to an empty sink",
+                        case.component,
+                        case.prefix_bits,
+                        rest.len(),
+                        clean.bits.len()
+                    ),
+                );
+            }
+        }
+    }
     let got: Result<Result<(BitModel, usize), String>, pan::Caught> = match case.sink.as_str() {
         "required" => pan::catch(|| {
             let mut s = ReqSink(Core::failing(None, false));
